@@ -17,7 +17,37 @@ from nanoemoji import write_font as WF
 from nanoemoji.config import FontConfig
 
 
+def _post_case(fmt, keep):
+    """tail of the real _generate_color_font with the font compile stubbed; -> post.formatType it leaves"""
+
+    class Post:
+        formatType = 2
+
+    class TT(dict):
+        pass
+
+    ext = WF._COLOR_FORMAT_GENERATORS[fmt][2] if fmt in WF._COLOR_FORMAT_GENERATORS else ".ttf"
+    cfg = FontConfig()._replace(color_format=fmt, keep_glyph_names=keep, output_file="x" + ext, fea_file="")
+    tt = TT()
+    tt["post"] = Post()
+    with shims.installed([
+        shims.Shim("nanoemoji.write_font", "_make_ttfont", lambda c, u, g: tt, "ufo2ft compile not under test"),
+        shims.Shim("nanoemoji.util", "load_fully", lambda f: f, "reload not under test"),
+        shims.Shim("nanoemoji.write_font", "_COLOR_FORMAT_GENERATORS", {fmt: WF.ColorGenerator(lambda *a: None, lambda *a: None, ext)}, "generator not under test"),
+        shims.Shim("nanoemoji.write_font", "_draw_notdef", lambda c, u: None, "not under test"),
+    ]):
+        ufo, ttfont = WF._generate_color_font(cfg, [])
+    return ttfont["post"].formatType
+
+
 def replay_post(inp):
+    keep = bool(inp["keep"])
+    try:
+        ft = _post_case(inp["fmt"], keep)
+    except Exception as e:
+        return {"raised": repr(e)}
+    if ft != (2 if keep else 3):
+        return {"color_format": inp["fmt"], "keep_glyph_names": keep, "post.formatType": ft}
     return None
 
 
@@ -27,25 +57,9 @@ def job_post_format(jc):
     fmt = jc.params["fmt"]
     inp = {"keep": core.SymBool(z3.Bool("keep")), "fmt": fmt}
 
-    class Post:
-        formatType = 2
-
-    class TT(dict):
-        pass
-
     def body():
         keep = core.boolean("keep")
-        cfg = FontConfig()._replace(color_format=fmt, keep_glyph_names=keep, output_file="x.ttf", fea_file="")
-        tt = TT()
-        tt["post"] = Post()
-        with shims.installed([
-            shims.Shim("nanoemoji.write_font", "_make_ttfont", lambda c, u, g: tt, "ufo2ft compile not under test"),
-            shims.Shim("nanoemoji.util", "load_fully", lambda f: f, "reload not under test"),
-            shims.Shim("nanoemoji.write_font", "_COLOR_FORMAT_GENERATORS", {fmt: WF.ColorGenerator(lambda *a: None, lambda *a: None, ".ttf")}, "generator not under test"),
-            shims.Shim("nanoemoji.write_font", "_draw_notdef", lambda c, u: None, "not under test"),
-        ]):
-            ufo, ttfont = WF._generate_color_font(cfg, [])
-        return keep, ttfont["post"].formatType
+        return keep, _post_case(fmt, keep)
 
     results = jc.explore(body)
     for r in results:
@@ -64,13 +78,16 @@ def jobs(tier):
     js = C07_cbdt.jobs(tier) + C07_cbdt.copy_jobs(tier)
     for sc in C02.SCENARIOS:
         js.append(Job(f"svg docs[{sc}]", C02.job_docs, scenario=sc, affine="translation"))
-    for fmt in ("glyf_colr_1", "picosvg", "cbdt"):
+    for fmt in ("glyf_colr_1", "picosvg", "cbdt", "sbix"):
         js.append(Job(f"post_format[{fmt}]", job_post_format, fmt=fmt))
         js.append(Job(f"ufo[{fmt}]", C20.job_ufo, fmt=fmt))
     js.append(Job("reorder whole_font", C11.job_whole_font))
     from harness import C07_rawsvg
 
     js += C07_rawsvg.jobs(tier) + [Job(f"rawsvg[{n}]", C02.job_rawsvg, source=n) for n in C02.RAW_SOURCES]
+    from harness import C04_gid
+
+    js += C04_gid.named_jobs(tier)  # two inputs on one glyph name never yield a font (overlapping SVG / CBLC records)
     return js
 
 
